@@ -159,4 +159,122 @@ theorem C14_v1_inner_errors_pass (c f : S) (c' : S) (ms ks : List S) :
     v1SetAttr c f (.missingFields c' ms) = .missingFields c' ms ∧
     v1SetAttr c f (.unknownKeys c' ks) = .unknownKeys c' ks := ⟨rfl, rfl⟩
 
+/-! ### where an error comes from (v1): the field named is the field whose loader failed, the class named is the class being built -/
+
+/-- a failure of the generated field loop is the failure of *one* field's loader: a constructor field whose key is in the
+document, on the value found under that key, re-attributed by the handler of this class -/
+theorem v1Fields_origin (fl : S → JVal → LRes) (eff : MetaCfg) (ci : ClassInfo) (kvs : List (S × JVal)) :
+    ∀ (fs : List FieldInfo) (e : LErr), v1Fields fl eff ci kvs fs = .error e →
+    ∃ fi ∈ fs, fi.init = true ∧ fi.isCatchAll = false ∧ ∃ v e0, lookupFirst kvs (v1Keys eff fi) = some v ∧
+      fl fi.name v = .error e0 ∧ e = v1SetAttr ci.name fi.name e0
+  | [], e, h => by simp [v1Fields, pure, Except.pure] at h
+  | fi :: r, e, h => by
+    simp only [v1Fields] at h
+    split at h
+    · obtain ⟨g, hg, rest⟩ := v1Fields_origin fl eff ci kvs r e h
+      exact ⟨g, by simp [hg], rest⟩
+    · next hinit =>
+      split at h
+      · obtain ⟨g, hg, rest⟩ := v1Fields_origin fl eff ci kvs r e h
+        exact ⟨g, by simp [hg], rest⟩
+      · next v hv =>
+        cases hfl : fl fi.name v with
+        | error e0 =>
+          simp [hfl, Except.mapError, bind, Except.bind] at h
+          subst h
+          have hi : fi.init = true ∧ fi.isCatchAll = false := by
+            cases h1 : fi.init <;> cases h2 : fi.isCatchAll <;> simp_all
+          exact ⟨fi, by simp, hi.1, hi.2, v, e0, hv, hfl, rfl⟩
+        | ok y =>
+          simp only [hfl, Except.mapError, bind, Except.bind] at h
+          cases hr : v1Fields fl eff ci kvs r with
+          | error e' =>
+            simp [hr] at h; subst h
+            obtain ⟨g, hg, rest⟩ := v1Fields_origin fl eff ci kvs r e' hr
+            exact ⟨g, by simp [hg], rest⟩
+          | ok rr => simp [hr, pure, Except.pure] at h
+
+/-- the class an error of this class's own last step speaks of -/
+def ownError (c : S) : LErr → Prop
+  | .unknownKeys c' _ => c' = c
+  | .missingFields c' _ => c' = c
+  | .unsupported _ => True      -- (outside the model; the harness skips such cases)
+  | _ => False
+
+theorem buildFields_err (kw : List (S × PyVal)) : ∀ (fs : List FieldInfo) (e : LErr),
+    buildFields kw fs = .error e → ∃ w, e = .unsupported w
+  | [], e, h => by simp [buildFields, pure, Except.pure] at h
+  | f :: r, e, h => by
+    simp only [buildFields] at h
+    split at h
+    · cases hr : buildFields kw r with
+      | error e2 => simp [hr, bind, Except.bind] at h; subst h; exact buildFields_err kw r _ hr
+      | ok rr => simp [hr, bind, Except.bind, pure, Except.pure] at h
+    · cases hr : buildFields kw r with
+      | error e2 => simp [hr, bind, Except.bind] at h; subst h; exact buildFields_err kw r _ hr
+      | ok rr => simp [hr, bind, Except.bind, pure, Except.pure] at h
+    · split at h
+      · cases hr : buildFields kw r with
+        | error e2 => simp [hr, bind, Except.bind] at h; subst h; exact buildFields_err kw r _ hr
+        | ok rr => simp [hr, bind, Except.bind, pure, Except.pure] at h
+      · simp at h; subst h; exact ⟨_, rfl⟩
+
+theorem finishKw_own (ci : ClassInfo) (kw : List (S × PyVal)) (e : LErr) (h : finishKw ci kw = .error e) :
+    ownError ci.name e := by
+  simp only [finishKw] at h
+  split at h
+  · cases hb : buildFields kw ci.fields with
+    | error e2 =>
+      simp [hb, bind, Except.bind] at h; subst h
+      obtain ⟨w, rfl⟩ := buildFields_err _ _ _ hb
+      simp [ownError]
+    | ok fs => simp [hb, bind, Except.bind, pure, Except.pure] at h
+  · simp at h; subst h; simp [ownError]
+
+theorem v1Finish_own (eff : MetaCfg) (ci : ClassInfo) (kvs : List (S × JVal)) (kw : List (S × PyVal)) (found : Nat)
+    (e : LErr) (h : v1Finish eff ci kvs kw found = .error e) : ownError ci.name e := by
+  simp only [v1Finish] at h
+  split at h
+  · simp at h; subst h; simp [ownError]
+  · exact finishKw_own _ _ _ h
+
+/-- **C14 (v1, attribution at the level of documents).** A failing load of a dict document by the function generated for
+class `ci` — any field loaders, any Meta — is exactly one of two things. (1) The loader of one constructor field `fi` of
+`ci`, applied to the value found in the document under `fi`'s first present key, failed with some `e0`, and the error is
+`e0` re-attributed by `ci`'s handler: `(ci, fi)` when `e0` names nothing yet (a bare exception, or a ParseError /
+MissingData without class and field — `C14_v1_innermost_kept`), the inner class and field when a nested dataclass already
+named them, and unchanged when it is an inner MissingFields / UnknownKeysError (`C14_v1_inner_errors_pass`). (2) Every
+field loaded and the last step of `ci` failed: an UnknownKeysError or MissingFields naming `ci` itself. So the class named
+is always the innermost dataclass being built and the field named is the one holding the value that did not convert. -/
+theorem C14_v1_error_origin (fl : S → JVal → LRes) (eff : MetaCfg) (ci : ClassInfo) (kvs : List (S × JVal)) (e : LErr)
+    (h : v1ClassWith fl eff ci (.dict kvs) = .error e) :
+    (∃ fi ∈ ci.fields, fi.init = true ∧ fi.isCatchAll = false ∧ ∃ v e0, lookupFirst kvs (v1Keys eff fi) = some v ∧
+        fl fi.name v = .error e0 ∧ e = v1SetAttr ci.name fi.name e0) ∨
+    ownError ci.name e := by
+  simp only [v1ClassWith] at h
+  cases hf : v1Fields fl eff ci kvs ci.fields with
+  | error e' =>
+    simp [hf, bind, Except.bind] at h
+    subst h
+    exact Or.inl (v1Fields_origin fl eff ci kvs ci.fields e' hf)
+  | ok res =>
+    obtain ⟨kw, found⟩ := res
+    simp only [hf, bind, Except.bind] at h
+    exact Or.inr (v1Finish_own eff ci kvs kw found e h)
+
+/-- what the handler makes of the inner failure, case by case (the second half of `C14_v1_error_origin`'s reading) -/
+theorem C14_v1_reattribution (c f : S) :
+    (∀ x, v1SetAttr c f (.raw x) = .parse (some c) (some f)) ∧
+    v1SetAttr c f (.parse none none) = .parse (some c) (some f) ∧
+    (∀ c' f', v1SetAttr c f (.parse (some c') (some f')) = .parse (some c') (some f')) ∧
+    (∀ c' ms, v1SetAttr c f (.missingFields c' ms) = .missingFields c' ms) ∧
+    (∀ c' ks, v1SetAttr c f (.unknownKeys c' ks) = .unknownKeys c' ks) :=
+  ⟨fun _ => rfl, rfl, fun _ _ => rfl, fun _ _ => rfl, fun _ _ => rfl⟩
+
+/-- the first alternative occurs: `class A: x: int` on `{'x': 'junk'}` with a field loader that raises ValueError fails
+with ParseError(class A, field x) -/
+theorem C14_v1_error_origin_example :
+    v1ClassWith (fun _ _ => rawE "ValueError") {} { name := "A".toList, fields := [{ name := "x".toList }] }
+      (.dict [("x".toList, .str "junk".toList)]) = .error (.parse (some "A".toList) (some "x".toList)) := by rfl
+
 end DW.Props.C14
